@@ -59,6 +59,10 @@ type VC struct {
 	localObjs  map[*Term]*localObj // objects allocated by the function under verification that have not escaped
 	localOrder []*Term
 	escWhy     string
+	matchedAsserts map[*CallAssert]bool
+	seenCallees    map[string]bool
+	macs       map[*Term]*macState
+	lastNow    *Term
 	A0        *Term
 	allocBase *Term            // current symbolic allocation base (A0, or a fresh base after a loop cut)
 	allocBases map[*Term]bool
@@ -543,7 +547,7 @@ func (vc *VC) mergeStates(ins []*State) *State {
 		for id, v := range out.cells {
 			sv, ok := s.cells[id]
 			if !ok {
-				delete(out.cells, id)
+				// the variable does not exist yet on that path: its value there is immaterial
 				continue
 			}
 			if sameVal(v, sv) {
@@ -556,6 +560,11 @@ func (vc *VC) mergeStates(ins []*State) *State {
 				out.setTaint(fmt.Sprintf("incompatible values merged in a local (%T vs %T)", sv, v))
 			}
 			out.cells[id] = m
+		}
+		for id, sv := range s.cells {
+			if _, ok := out.cells[id]; !ok {
+				out.cells[id] = sv
+			}
 		}
 		// heap
 		keys := map[string]bool{}
